@@ -22,8 +22,23 @@ pub fn verif_from_raw_parts<'a>(bytes: &'a [u8], n: usize) -> (r: &'a [u64])
 pub assume_specification[ u64::from_be ](x: u64) -> (r: u64) ensures r == u64_from_be_spec(x);
 /// R22: `a.iter_mut().zip(b).for_each(|(l, r)| *l ^= r)`
 pub closed spec fn xor_seq(a: Seq<u8>, b: Seq<u8>) -> Seq<u8> { Seq::new(a.len(), |i: int| if i < b.len() { a[i] ^ b[i] } else { a[i] }) }
-#[verifier::external_body]
-pub fn verif_xor_in_place(a: &mut BytesMut, b: BytesMut) ensures final(a)@ == xor_seq(old(a)@, b@) { unimplemented!() }
+pub trait XorSrc { spec fn xs(&self) -> Seq<u8>; }
+impl XorSrc for BytesMut { open spec fn xs(&self) -> Seq<u8> { self@ } }
+impl<'a> XorSrc for &'a [u8] { open spec fn xs(&self) -> Seq<u8> { (**self)@ } }
+pub trait VXor {
+    spec fn xd(&self) -> Seq<u8>;
+    fn v_xor_with<B: XorSrc>(&mut self, b: B) ensures final(self).xd() == xor_seq(old(self).xd(), b.xs());
+}
+impl VXor for BytesMut {
+    open spec fn xd(&self) -> Seq<u8> { self@ }
+    #[verifier::external_body]
+    fn v_xor_with<B: XorSrc>(&mut self, b: B) { unimplemented!() }
+}
+impl VXor for [u8; 16] {
+    open spec fn xd(&self) -> Seq<u8> { self@ }
+    #[verifier::external_body]
+    fn v_xor_with<B: XorSrc>(&mut self, b: B) { unimplemented!() }
+}
 
 /// R14: `[a, b].concat()`
 #[verifier::external_body]
